@@ -242,18 +242,6 @@ func c08MaskText(m int) string {
 	return strings.Join(p, " + ")
 }
 
-// ---------- known findings ----------
-
-// c08MaybeExpNear is a cheap necessary condition of the trigger `trigExpNear` (Spec/Num.lean) of the known
-// findings K-C08-1/2; the cases that pass it are classified by the Lean predicate itself (op trig.c08.expnear).
-func c08MaybeExpNear(in []byte, prec int) bool {
-	if prec <= 0 {
-		return false
-	}
-	i := bytes.IndexAny(in, "eE")
-	return i >= 0 && len(in)-i-1 >= 18
-}
-
 // ---------- case collection ----------
 
 type c08Case struct {
@@ -347,7 +335,6 @@ func (b *c08Batch) process(cases []c08Case) {
 	lines := make([]string, 0, 2*len(cases))
 	idxModel := make([]int, len(cases))
 	idxHolds := make([]int, len(cases))
-	idxTrig := make([]int, len(cases))
 	for i := range cases {
 		cs := &cases[i]
 		op := "model.number "
@@ -358,11 +345,6 @@ func (b *c08Batch) process(cases []c08Case) {
 		}
 		idxModel[i] = len(lines)
 		lines = append(lines, op+h.Hex(cs.in)+" "+h.Int(int64(cs.prec)))
-		idxTrig[i] = -1
-		if !cs.dec && cs.gram && c08MaybeExpNear(cs.in, cs.prec) {
-			idxTrig[i] = len(lines)
-			lines = append(lines, "trig.c08.expnear "+h.Hex(cs.in)+" "+h.Int(int64(cs.prec)))
-		}
 		idxHolds[i] = -1
 		if cs.gram && cs.problem == "" {
 			idxHolds[i] = len(lines)
@@ -420,14 +402,6 @@ func (b *c08Batch) process(cases []c08Case) {
 			cfg := fmt.Sprintf("func=%s prec=%d", c08Name(cs.dec), cs.prec)
 			return h.Finding{Stage: b.st.Name, Kind: kind, What: what, Input: h.Q(cs.in), Hex: h.Hex(cs.in), Config: cfg, Impl: h.Q(cs.out), Seed: b.c.Seed}
 		}
-		underKnown := ""
-		if idxTrig[i] >= 0 && rep[idxTrig[i]] == "31" {
-			for _, k := range b.known {
-				if k.Status == "open" && k.Trigger == "trigExpNear" && underKnown == "" {
-					underKnown = k.ID
-				}
-			}
-		}
 		if cs.problem != "" {
 			if cs.gram {
 				kind := "fail"
@@ -467,10 +441,6 @@ func (b *c08Batch) process(cases []c08Case) {
 				}
 				if !confirmed {
 					b.c.R.Add(mk("diff", "specification says value changed but big.Rat says equal"))
-				} else if underKnown != "" {
-					b.c.R.ExcludedKnown++
-					b.st.Tag("known=" + underKnown)
-					continue
 				} else {
 					f := mk("fail", c08Name(cs.dec)+": "+c08MaskText(mask))
 					b.c.R.Add(f)
@@ -479,11 +449,6 @@ func (b *c08Batch) process(cases []c08Case) {
 			}
 		}
 		// (a) correspondence
-		if underKnown != "" {
-			b.c.R.ExcludedKnown++
-			b.st.Tag("known=" + underKnown)
-			continue
-		}
 		if !bytes.Equal(model, cs.out) {
 			// at most two findings per (function, input): the same lexeme usually disagrees at every precision
 			if b.ndiff == nil {
@@ -652,6 +617,13 @@ var c08Regress = []struct {
 	{false, "99.5", 2, "100"}, {false, "1000", 0, "1e3"}, {false, "0.001", 0, ".001"}, {false, "-0", 0, "0"},
 	{false, "1e-9223372036854775808", 0, "1e-9223372036854775808"}, {false, "100e-2", 0, "1"}, {false, ".0000001", 0, "1e-7"},
 	{false, "123456e9223372036854775806", 2, "123456e9223372036854775806"},
+	// fixed in bc4b03f (formerly K-C08-1/2): with a precision an exponent within len+1 of the int range leaves the lexeme alone
+	{false, "123456.7e9223372036854775807", 2, "123456.7e9223372036854775807"},
+	{false, "0.95e9223372036854775807", 1, "0.95e9223372036854775807"},
+	{false, "9999999.9999999099e-9223372036854775803", 16, "9999999.9999999099e-9223372036854775803"},
+	{false, "99.5e9223372036854775807", 2, "99.5e9223372036854775807"},
+	{false, "123456.7e9223372036854775807", 0, "123456.7e9223372036854775807"},
+	{false, "99.5e9223372036854775780", 2, "1e9223372036854775782"},
 }
 
 func init() {
